@@ -127,7 +127,7 @@ class Run:
             bind = [f for f in fails if f.startswith("bind.")]
             if bind:
                 raise MachineryError("ill-formed trace (stage %s): %s on %s" % (stage, bind, json.dumps(trim_event(ev))[:800]))
-            mine = [f for f in fails if f.startswith(self.prop + ".")]
+            mine = [f for f in fails if f.startswith(("S" if self.prop == "stages" else self.prop) + ".")]
             if mine:
                 self.violations.append((ev, mine, traces[ev["tid"]]))
         self.evaluations += n
@@ -192,6 +192,8 @@ def write_evidence(run, plan_meta, wall, nviol):
         "violations": nviol,
     }
     edir = os.environ.get("VERIF_EVIDENCE_DIR") or os.path.join(VERIF, "evidence")   # redirected only by harness/seeds.py
+    if not run.prop.startswith("C"):
+        edir = os.path.join(VERIF, "extra")         # checks beyond the listed properties keep their reports apart
     os.makedirs(edir, exist_ok=True)
     with open(os.path.join(edir, run.prop + ".json"), "w") as f:
         json.dump(ev, f, indent=1)
